@@ -10,7 +10,7 @@ import vlib, build, bpbind, sqfsimg, tarfmt
 from vlib import VERIF, Evidence, Reporter, run_tlc, write_cfg, scratch, SEED, sh
 
 PID = "C07"
-CHECKS = ["ChecksumChecked", "PaxLenChecked", "SparseCountBounded", "SizeFieldValidated", "LinkCycleDetected"]
+CHECKS = ["ChecksumChecked", "PaxLenChecked", "SparseCountBounded", "SizeFieldValidated", "LinkCycleDetected", "Sparse10Validated"]
 
 
 def sparse_header(name, entries, realsize, payload_len, isext=0):
@@ -66,6 +66,13 @@ def render_record(cls, i):
         return sparse_header(name, [(0, 512), (1 << 33, 512)], 4096, 1024) + b"D" * 1024
     if cls == "sparse_count_mismatch":
         return sparse_header(name, [(0, 512), (1024, 512), (2048, 512), (3072, 512)], 8192, 512, isext=1) + b"D" * 512
+    if cls.startswith("sp10_"):
+        # GNU sparse format 1.0: PAX header (major 1, minor 0, real name, real size) + a member whose payload starts with the map
+        m = {"sp10_count_nonnumeric": b"x\n0\n512\n", "sp10_count_huge": b"99999999999999\n0\n512\n", "sp10_entry_nonnumeric": b"1\n0\nabc\n",
+             "sp10_map_truncated": b"3\n0\n512\n", "sp10_no_newline": b"1" * 512, "sp10_number_overflow": b"1\n99999999999999999999999999\n512\n"}[cls]
+        pax = tarfmt.pax([(b"GNU.sparse.major", b"1"), (b"GNU.sparse.minor", b"0"), (b"GNU.sparse.name", name), (b"GNU.sparse.realsize", b"4096")])
+        body = m.ljust(512, b"\0") if cls != "sp10_map_truncated" else m           # truncated: the map ends with the member
+        return pax + H(b"GNUSparseFile.0/" + name, b"0", size=len(body) + (512 if cls != "sp10_map_truncated" else 0)) + tarfmt.pad(body) + (b"D" * 512 if cls != "sp10_map_truncated" else b"")
     if cls == "name_dotdot":
         return H(b"../escape%d" % i, b"0", size=len(data)) + tarfmt.pad(data)
     if cls == "name_empty":
